@@ -648,3 +648,87 @@ func init() {
 		}
 	})
 }
+
+// ---- the size recorded for a structure is the size allocated for it (C04.13 / C12.16) ----
+//
+// addr := Allocate(n); obj.address = addr; obj.size = m - the object is later serialized into m bytes at addr. m and n are the
+// same value. With less allocated than recorded, the structure is written over whatever is allocated next.
+func allocatedSizeRecordedRule(c *Ctx, r *Result, rule string, floor int) {
+	n := 0
+	for _, fn := range c.LibFuncs() {
+		if fn.Blocks == nil {
+			continue
+		}
+		pk := shortPkg(fnPkgPath(fn))
+		if pk != "hdf5" && pk != "structures" && pk != "writer" {
+			continue
+		}
+		var fb *FB
+		for _, site := range callsIn(fn) {
+			com := site.Common()
+			name := ""
+			if com.IsInvoke() {
+				name = com.Method.Name()
+			} else if f := com.StaticCallee(); f != nil {
+				name = f.Name()
+			}
+			if name != "Allocate" || len(com.Args) == 0 {
+				continue
+			}
+			call, isCall := site.(*ssa.Call)
+			if !isCall {
+				continue
+			}
+			sizeArg := com.Args[len(com.Args)-1]
+			// where does the address go?
+			var addrVals []ssa.Value
+			for _, ref := range *call.Referrers() {
+				if ex, isEx := ref.(*ssa.Extract); isEx && ex.Index == 0 {
+					addrVals = append(addrVals, ex)
+				}
+			}
+			if len(addrVals) == 0 {
+				addrVals = append(addrVals, call)
+			}
+			for _, av := range addrVals {
+				for _, ref := range *av.Referrers() {
+					st, isSt := ref.(*ssa.Store)
+					if !isSt || st.Val != av {
+						continue
+					}
+					fa, isFA := st.Addr.(*ssa.FieldAddr)
+					if !isFA {
+						continue
+					}
+					// sibling store of a size into the same object
+					for _, r2 := range *fa.X.Referrers() {
+						fa2, isFA2 := r2.(*ssa.FieldAddr)
+						if !isFA2 || fa2 == fa {
+							continue
+						}
+						fld, _ := fieldOfAddr(fa2)
+						if fld == nil || !strings.EqualFold(fld.Name(), "size") {
+							continue
+						}
+						for _, r3 := range *fa2.Referrers() {
+							st2, isSt2 := r3.(*ssa.Store)
+							if !isSt2 || st2.Addr != ssa.Value(fa2) {
+								continue
+							}
+							if fb == nil {
+								fb = c.FB(fn)
+							}
+							n++
+							d := fb.lin(st2.Val).add(fb.lin(sizeArg), -1)
+							same := st2.Val == sizeArg || (d.isConst() && d.C == 0)
+							r.Check(same, rule, c.Name(fn)+"#recorded-size-is-the-allocated-size", c.InstrPos(call), "Allocate("+fb.linString(fb.lin(sizeArg))+") and the object's size field takes "+fb.linString(fb.lin(st2.Val)))
+						}
+					}
+				}
+			}
+		}
+	}
+	if n < floor {
+		r.Shortfall(c, rule, fmt.Sprintf("%s: only %d allocations whose address and size are recorded in one object (expected >= %d)", rule, n, floor))
+	}
+}
